@@ -37,8 +37,23 @@ SCENARIOS = [(p, put, rm) for put in (False, True) for rm in (False, True)
 
 def race_schedules(ctx):
     """All maximal schedules of every scenario, enumerated by the Coq model (printed by coqc)."""
+    import hashlib
+    import json
     import re
     os.makedirs(ctx.casedir, exist_ok=True)
+    # the enumeration is a pure function of the model sources (34 s of coqc for 28 600 schedules): cached by
+    # their content, like the .vo files
+    hsh = hashlib.sha256(repr(SCENARIOS).encode())
+    for f in ("model/C04_race.v", "model/C04_race_run.v"):
+        hsh.update(open(os.path.join(core.COQ, f), "rb").read())
+    cdir = os.path.join(core.BUILD, "c04_sched_cache")
+    os.makedirs(cdir, exist_ok=True)
+    cf = os.path.join(cdir, hsh.hexdigest()[:24] + ".json")
+    if os.path.exists(cf):
+        try:
+            return {int(k): v for k, v in json.load(open(cf)).items()}, None
+        except Exception:
+            pass
     v = os.path.join(ctx.casedir, "sched_enum_c04i.v")
     body = HDR_I
     for i, (p, put, rm) in enumerate(SCENARIOS):
@@ -54,6 +69,9 @@ def race_schedules(ctx):
         res[int(parts[k])] = re.findall(r'"([ab0-3]*)"', parts[k + 1])
     if len(res) != len(SCENARIOS) or any(not v for v in res.values()):
         return None, "could not parse the schedule enumeration"
+    tmp = cf + ".%d.tmp" % os.getpid()
+    json.dump(res, open(tmp, "w"))
+    os.replace(tmp, cf)
     return res, None
 
 
@@ -184,12 +202,14 @@ def run(ctx):
         stage_d(ctx, nd * mult, suffix, off)
     return standard(ctx, "C04", ["model/C04_run.vo", "model/C04_race_run.vo", "model/C04_delay_run.vo"], stages,
                     rule="random histories (8-40 requests) of PUT/TOUCH/GET/trash-list/DELETE/untrash/empty-trash on 1-2 Directory volumes, "
-                         "time advanced by shifting file times; distinct by hash of the case term; non-trivial = a block was trashed or an untrash was issued",
+                         "time advanced by shifting file times; sampled interleavings of PUT/TOUCH with DELETE; single PUT/TOUCH requests with clock jumps at their yield points followed by a DELETE; "
+                         "distinct by hash of the case term; non-trivial = a block was trashed or an untrash was issued (histories), a prior copy exists (interleavings), an acknowledged request with at least one clock jump (delayed writes)",
                     assumptions=["virtual clock: time passes by shifting every mtime and trash deadline backwards by whole seconds; TTL 2 h, every age/deadline comparison kept >= 5 s from its boundary",
                                  "each step's clock value is the one the implementation read, recovered from the mtime / deadline it wrote (checked to lie inside the window measured around the request)",
                                  "TrashItem and EmptyTrash are called directly, as the trash worker and the emptyTrash ticker do",
                                  "interleaving level: one writable volume, Serialize off; flock(2) per inode, utimes/stat/rename/unlink by path; mtimes abstracted to {older than TTL, fresh}",
-                                 "a thread expected to be blocked in flock(2) is confirmed by a 15 ms grace period (only a missed detection, never a false alarm, can result from timing)"])
+                                 "a thread expected to be blocked in flock(2) is confirmed by a 15 ms grace period (only a missed detection, never a false alarm, can result from timing)",
+                                 "delayed-write level: unix_volume.go reads its clock through verifNow() (real clock + harness offset, rewritten by tools/instrument); one request runs alone and the offset jumps 10 min - 3 h inside the hook of chosen yield points (incl. the v.lock points, Serialize on and off); every clock read of the request is bracketed by two stamps taken on its own goroutine; stored mtimes compared with 1 s slack; the commit phase (timestamp -> acknowledgement) is excluded from the demanded protection, as in the code"])
 
 
 def dev(ctx, n, extra):
